@@ -175,6 +175,9 @@ impl Slatepack {
 		writer.finish()?;
 		self.payload = encrypted.to_vec();
 		self.mode = 1;
+		// the metadata now lives inside the ciphertext only: left on the struct
+		// it would show up in the JSON form of the slatepack
+		self.encrypted_meta = default_enc_metadata();
 		Ok(())
 	}
 
